@@ -53,7 +53,7 @@ def run(rep, tier):
     ref = asmmodel.reference_table()
     tab, src = asmmodel.mnemonic_table(F)
     rep.info("folded_table", "%d entries" % len(tab) if tab is not None else "not a literal map: %s" % (src,))
-    if asmmodel.internal_entry(F) is None:
+    if asmmodel.internal_entry(F) is None and not (F.fns.get("assembler::assemble") or {}).get("thir"):
         rep.ob(ra, "entry", False, "the function turning parsed instructions into Insn values", expected="fn(&[Instruction]) -> Result<Vec<Insn>, String>", found="not found")
         return
     evr = symex.Evaluator(F)
